@@ -231,6 +231,22 @@ def oracle(ctx, obs):
                 bad.append(("range variant differs from the point accessor", k, None, None))
         sw = sp["swapped"]
         swr = f64_of_hex(sw["ref_sing"])
+        # C20_idler_of_swapped_is_signal: the idler singles of the swapped setup's spectrum are this setup's signal singles at the
+        # exchanged frequencies -- compared only where exchanging twice gives this setup back bit for bit (C20_swap_involutive; a
+        # setup with a NaN field is not equal to itself and is left to C17)
+        if "twice_same" in sw:
+            if not sw["twice_same"]:
+                ctx.count("swap_twice_not_bitwise_same")
+            else:
+                ctx.count("swap_twice_same")
+                for k, (a, b) in enumerate(zip(sw["idler_sing_n_of_swapped"], sw["sing_n_exchanged"])):
+                    fa, fb = f64_of_hex(a), f64_of_hex(b)
+                    if fa != fa or fb != fb:
+                        ctx.count("raw_nonfinite_point_left_to_C17")
+                        continue
+                    ctx.cov["evaluations"] += 1
+                    if not close(fa, fb):
+                        bad.append(("idler singles of the swapped setup's spectrum vs signal singles of this setup (exchanged frequencies)", k, fa, fb))
         if swr > 0 and len(sw["sing"]) == ng:
             for k in range(ng):
                 got = f64_of_hex(rg["idler_sing_n"][k])
@@ -368,7 +384,14 @@ def run(ctx):
                                                                                   "1e-12 for all seven accessors on a required minimum number of non-zero references",
         "unit at the centre of an optimised setup": "proved (corollary of idempotence) + validated",
         "normalised JSI = |normalised JSA|^2": "proved + validated",
-        "sweep normalisation": "proved (non-zero reference) + validated"}
+        "sweep normalisation": "proved (non-zero reference) + validated; raw sweep value = unnormalised JSI of each setup at its own centre, the "
+                               "sweep's normalised value of a setup whose optimum is the base's optimum = that setup's own jsi_normalized at its centre "
+                               "(same reference), the base's optimum sweeps to 1, sweeps are pointwise and in order: proved (C20_sweep_raw_is_jsi, "
+                               "C20_sweep_is_spectrum, C20_sweep_unit_at_optimum, C20_sweep_pointwise) + validated on a second sweep that starts at "
+                               "the base setup, where the optimised setups are equal bit for bit",
+        "idler variants mirror the signal variants": "proved (C20_swap_involutive on the generated PMType::inverse table, "
+                                                     "C20_idler_of_swapped_is_signal for all oracles) + validated where exchanging twice "
+                                                     "returns the setup bit for bit"}
     return finish(ctx, assumptions=[
         "L4 structural models; optimiser kernels, raw spectra and normalisation factors are oracles; try_as_optimum's oracle answers are recorded "
         "from the implementation through the public API and the model's result is compared field by field",
